@@ -165,6 +165,10 @@ def int_range_cases(draw, max_items=4, limits=None, spell_kinds=None):
         probes.add(finite[-1] + 1000)
         probes.add(finite[0] - 2**64)
         probes.add(finite[-1] + 2**64)
+    # values a power of two away from a limit: where a truncated, wrapped or bucketed copy of a value would collide
+    for v in finite[:4]:
+        for shift in (8, 16, 32):
+            probes.update((v - 2**shift, v + 2**shift))
     probes.update(draw(st.lists(st.integers(-500, 500), min_size=2, max_size=2)))
     return {"kind": "int", "description": description, "items": out_items, "probes": sorted(probes),
             "spellings": sorted(kinds)}
